@@ -218,6 +218,131 @@ def replay_and_judge(res, work, sub, inp, name, shards, extra, pid, timeout=1200
     return nviol
 
 
+def stdio_sessions(res, work, pid):
+    """the shipped `iwes` binary driven over stdio (what an editor does): a session of valid requests, requests that make a
+    handler panic (unknown files with short, long and non-ASCII names), an edit, a probe, shutdown and exit; the client-side
+    events are judged by Trace_RouterIdeal like every replayed schedule (one response per request, valid requests answered
+    from a state that includes the edit, clean exit)"""
+    import subprocess, shutil, threading, queue
+    iwes = build_iwes_binary()
+    lib = os.path.join(work, "stdio_lib")
+    shutil.rmtree(lib, ignore_errors=True)
+    os.makedirs(os.path.join(lib, ".iwe"))
+    open(os.path.join(lib, "a.md"), "w").write("# v0\n\ntext [b](b)\n")
+    open(os.path.join(lib, "b.md"), "w").write("# bee\n")
+    uri = lambda name: "file://" + os.path.join(lib, name)
+    sessions = []
+    unknown = {"short": "nosuch.md", "long": "x" * 200 + ".md", "accent": "\u00e9" * 100 + ".md", "cjk": "a" + "\u65e5" * 80 + ".md",
+               "astral": "ab" + "\U0001F600" * 50 + ".md"}
+    for label, fname in unknown.items():
+        for method in ("textDocument/codeAction", "textDocument/formatting", "textDocument/inlayHint"):
+            sessions.append((label, method, fname))
+    events = []
+    for ci, (label, method, fname) in enumerate(sessions):
+        events.append({"ev": "Reset", "case": ci})
+        proc = subprocess.Popen([iwes], cwd=lib, stdin=subprocess.PIPE, stdout=subprocess.PIPE, stderr=subprocess.DEVNULL)
+        inbox = queue.Queue()
+
+        def reader(p=proc, q=inbox):
+            try:
+                while True:
+                    head = b""
+                    while not head.endswith(b"\r\n\r\n"):
+                        c = p.stdout.read(1)
+                        if not c:
+                            q.put(None)
+                            return
+                        head += c
+                    n = int([h for h in head.decode().split("\r\n") if h.lower().startswith("content-length")][0].split(":")[1])
+                    q.put(json.loads(p.stdout.read(n)))
+            except Exception:
+                q.put(None)
+        threading.Thread(target=reader, daemon=True).start()
+
+        def send(msg, p=proc):
+            body = json.dumps(msg).encode()
+            try:
+                p.stdin.write(b"Content-Length: %d\r\n\r\n" % len(body) + body)
+                p.stdin.flush()
+            except Exception:
+                pass
+
+        def wait_for(rid, q=inbox, budget=20):
+            """responses that arrive until the one for `rid` (or the stream ends / the budget runs out)"""
+            got = []
+            t0 = time.time()
+            while time.time() - t0 < budget:
+                try:
+                    m = q.get(timeout=0.5)
+                except queue.Empty:
+                    continue
+                if m is None:
+                    return got, False
+                if "id" in m and "method" not in m:
+                    got.append(m)
+                    if m["id"] == rid:
+                        return got, True
+            return got, True
+
+        send({"jsonrpc": "2.0", "id": 0, "method": "initialize", "params": {"capabilities": {}, "clientInfo": {"name": "stdio-driver"}}})
+        wait_for(0)
+        send({"jsonrpc": "2.0", "method": "initialized", "params": {}})
+        ver = lambda m: max([int(x) for x in re.findall(r"\bv(\d+)\b", json.dumps(m.get("result")))] or [0])
+        reqs = [
+            (1, "workspace/symbol", {"query": ""}, "ok", None),
+            (2, method, ({"textDocument": {"uri": uri(fname)}, "range": {"start": {"line": 0, "character": 0}, "end": {"line": 0, "character": 0}}, "context": {"diagnostics": []}}
+                         if method != "textDocument/formatting" else {"textDocument": {"uri": uri(fname)}, "options": {"tabSize": 2, "insertSpaces": True}}), "panic", None),
+            (None, "textDocument/didChange", {"textDocument": {"uri": uri("a.md"), "version": 1}, "contentChanges": [{"text": "# v1\n\ntext [b](b)\n"}]}, None, 1),
+            (3, "workspace/symbol", {"query": ""}, "ok", None),
+            (4, "textDocument/definition", {"textDocument": {"uri": uri("a.md")}, "position": {"line": 2, "character": 7}}, "ok", None),
+        ]
+        alive = True
+        for rid, m, params, cls, n in reqs:
+            if rid is None:
+                events.append({"ev": "SendNot", "n": n, "key": "a"})
+                send({"jsonrpc": "2.0", "method": m, "params": params})
+                continue
+            events.append({"ev": "SendReq", "r": rid, "key": "a", "cls": cls})
+            send({"jsonrpc": "2.0", "id": rid, "method": m, "params": params})
+            got, alive = wait_for(rid)
+            for g in got:
+                seen = ver(g) if m == "workspace/symbol" else (1 if rid > 2 else 0)
+                events.append({"ev": "Resp", "r": g["id"], "err": "error" in g, "seen": seen})
+            if not alive:
+                break
+        events.append({"ev": "Quiescent"})
+        send({"jsonrpc": "2.0", "id": 99, "method": "shutdown", "params": None})
+        wait_for(99, budget=5)
+        send({"jsonrpc": "2.0", "method": "exit", "params": None})
+        try:
+            rc = proc.wait(timeout=10)
+        except subprocess.TimeoutExpired:
+            proc.kill()
+            rc = -9
+        events.append({"ev": "Exit", "ok": rc == 0 and alive})
+    events.append({"ev": "End"})
+    path = os.path.join(work, "stdio.events.0.ndjson")
+    with open(path, "w") as f:
+        f.write("\n".join(json.dumps(e) for e in events) + "\n")
+    r = tlc("Trace_RouterIdeal.tla", "Trace_RouterIdeal.cfg", os.path.join(work, "tr_stdio"), workers=1, timeout=900, env={"TRACE": path},
+            trace_mode=True)
+    if '"ACCEPTED"' not in r["out"]:
+        raise ToolError("trace validation did not consume the stdio trace:\n" + r["out"][-3000:])
+    cases = None
+    for v in prints(r["out"], "VERDICT"):
+        mine = [b for b in v["bad"] if pid in attribute(b)]
+        if not mine:
+            continue
+        if cases is None:
+            cases = split_cases(path)
+        label, method, fname = sessions[v["case"]]
+        p = save_replay(work, "%s_stdio_case%s" % (pid, v["case"]), {"property": pid, "reasons": mine, "session": {"unknown_file": fname, "method": method},
+                                                                      "events": cases.get(v["case"])})
+        res.violation(p, "iwes binary over stdio, %s on an unknown file with a %s name: %s" % (method, label, json.dumps(mine)))
+    res.cov["stdio_sessions"] = len(sessions)
+    shutil.rmtree(lib, ignore_errors=True)
+
+
 def common_assumptions(res):
     res.assumptions += [
         "hooks (cfg iwe_verif) mark the real program points; the Arc clone of a worker is considered released when its OS thread is gone (/proc/self/task)",
@@ -336,6 +461,7 @@ def check_c12(tier):
     total += n
     res.cov["samples"].append({"schedule": json.loads(open(path).readline())})
     replay_and_judge(res, work, "router-replay", path, "sched", 8, ["--keys", "a"], pid)
+    stdio_sessions(res, work, pid)
     if tier == "thorough":
         tests_trace(res, work, pid)
     res.cov["traces_validated_against_impl"] = total
